@@ -59,16 +59,19 @@ class RamfileBackend(SourcedStateBackend):
         vm_dir = os.path.join(state_dir, params["object_id"])
         snapshots = os.listdir(vm_dir)
 
-        images_states = set()
+        images_states = None
         for image_name in params.objects("images"):
             image_params = params.object_params(image_name)
             # TODO: refine method arguments by providing at least the image name directly
             image_params["images"] = image_name
             image_snapshots = cls.image_state_backend.show(image_params, object=object)
-            if len(images_states) == 0:
+            if images_states is None:
                 images_states = image_snapshots
             else:
-                images_states = images_states.intersect(image_snapshots)
+                # a vm state requires all images to have it
+                images_states = [s for s in images_states if s in image_snapshots]
+        if images_states is None:
+            images_states = []
 
         states = []
         for snapshot in snapshots:
